@@ -168,6 +168,18 @@ func c04(ctx *run.Ctx) {
 		}
 	}
 	all := append(append([]namedStrat(nil), base...), compoundStrats(ctx, small, ctx.Pick(8, 30))...)
+	// Legal but unusual orderings that the registry's random configurations
+	// avoid (they are outside what C05/C06 can judge, but causality must hold
+	// there too): a DEMA strategy whose first DEMA is the slower one.
+	if row := reg.StratByName("trend.DemaStrategy"); row != nil {
+		for i := 0; i < ctx.Pick(3, 10); i++ {
+			c := row.Rand(gen.New(ctx.Seed, fmt.Sprintf("c04-dema-swapped/%d", i)))
+			if len(c.I) == 4 {
+				c.I[0], c.I[1], c.I[2], c.I[3] = c.I[2], c.I[3], c.I[0], c.I[1]
+			}
+			all = append(all, namedStrat{Name: fmt.Sprintf("trend.DemaStrategy swapped=%v", c), New: func() strategy.Strategy { return row.New(c) }, Warm: 30, Quiet: 0})
+		}
+	}
 	for si, ns := range all {
 		ns := ns
 		for _, class := range classes {
